@@ -10,7 +10,8 @@
 (*         [kind, form, ops, x]   form \in {"inst", "term", "cexpr"},      *)
 (*         ops = operand types in textual order, x = the non-operand parts *)
 (*         (cast target, explicit type, index path, address space, atomic  *)
-(*         operation) as described at Types!ResultType                     *)
+(*         operation, spelling of the callee type of call-like kinds) as   *)
+(*         described at Types!ResultType                                   *)
 (*                                                                         *)
 (* Operand type shapes (Shapes below): i1 i8 i64 i129; half float double   *)
 (* x86_fp80; i8* in address spaces 0 and 1; <2 x T> and <vscale x 2 x T>   *)
@@ -102,12 +103,22 @@ CastPairs(kind) ==
     [] kind = "addrspacecast" -> LiftPairs({<<P0, P1>>, <<P1, P0>>, <<TPtr(S, 1), TPtr(S, 0)>>})
 
 RetTypes == {TVoid, I8, Double, P1, V2(I64), VS2(I64), Lit, S, TArr(2, I64), TPtr(TFunc(TVoid, <<>>, FALSE), 0)}
-\* callee types (pointer to function) and the argument types passed
-Callees(rets) ==
-  UNION {{ <<TPtr(TFunc(r, <<>>, FALSE), 0)>>,
-           <<TPtr(TFunc(r, <<I8>>, FALSE), 0), I8>>,
-           <<TPtr(TFunc(r, <<I8>>, TRUE), 0), I8, I64>>,          \* varargs with one extra argument
-           <<TPtr(TFunc(r, <<>>, TRUE), 1)>> } : r \in rets}
+\* Call-like cases: the operand list (callee type = pointer to function, then the argument
+\* types passed) and the SPELLING of the callee type in the instruction, x.sp:
+\*    "short"  `call RET %f(args)`          -- only the return type; LLVM infers a non-variadic
+\*                                            function type from the arguments
+\*    "full"   `call RET (PARAMS) %f(args)`  -- the whole function type; mandatory for variadic
+\*                                            callees, permitted for every callee
+\* The result type is the callee's return type in either spelling.
+CallOps(rets) ==
+  UNION {{ [ops |-> <<TPtr(TFunc(r, <<>>, FALSE), 0)>>, va |-> FALSE],
+           [ops |-> <<TPtr(TFunc(r, <<I8>>, FALSE), 0), I8>>, va |-> FALSE],
+           [ops |-> <<TPtr(TFunc(r, <<I8>>, TRUE), 0), I8, I64>>, va |-> TRUE],      \* varargs, one extra argument
+           [ops |-> <<TPtr(TFunc(r, <<>>, TRUE), 1)>>, va |-> TRUE],
+           [ops |-> <<TPtr(TFunc(r, <<I8>>, FALSE), 1), I8>>, va |-> FALSE] } : r \in rets}
+Spellings(co) == IF co.va THEN {"full"} ELSE {"short", "full"}
+CallCases(kind, form, rets) ==
+  UNION {{C(kind, form, co.ops, [sp |-> sp]) : sp \in Spellings(co)} : co \in CallOps(rets)}
 
 Masks(v) == IF v.sc THEN {TVec(TRUE, 2, I32), TVec(TRUE, 4, I32)} ELSE {TVec(FALSE, 2, I32), TVec(FALSE, 4, I32), TVec(FALSE, 1, I32)}
 
@@ -139,10 +150,11 @@ CasesOf(kind) ==
     [] kind = "select" -> UNION {BothForms(kind, <<I1, t, t>>, None) : t \in Shapes}
                           \cup UNION {BothForms(kind, <<TVec(t.sc, t.n, I1), t, t>>, None) : t \in VecT}
     [] kind = "freeze" -> {C(kind, "inst", <<t>>, None) : t \in Shapes}
-    [] kind = "call"   -> {C(kind, "inst", ops, None) : ops \in Callees(RetTypes)}
-    [] kind = "invoke" -> {C(kind, "term", ops, None) : ops \in Callees({TVoid, I8, VS2(I64), Lit, S})}
+    [] kind = "call"   -> CallCases(kind, "inst", RetTypes)
+    [] kind = "invoke" -> CallCases(kind, "term", {TVoid, I8, VS2(I64), Lit, S})
        \* callbr: the callee is inline assembly (the only callee LLVM 14 allows), one output or none
-    [] kind = "callbr" -> {C(kind, "term", <<TPtr(TFunc(r, <<P0>>, FALSE), 0), P0>>, None) : r \in {TVoid, I32, I64, P0}}
+    [] kind = "callbr" -> {C(kind, "term", <<TPtr(TFunc(r, <<P0>>, FALSE), 0), P0>>, [sp |-> sp])
+                             : r \in {TVoid, I32, I64, P0}, sp \in {"short", "full"}}
     [] kind = "va_arg" -> {C(kind, "inst", <<P0>>, [ty |-> t]) : t \in {I32, Double, P1, V2(I64), Lit}}
     [] kind = "landingpad" -> {C(kind, "inst", <<>>, [ty |-> t]) : t \in {TStruct(FALSE, <<P0, I32>>), I32, Lit}}
     [] kind \in {"catchpad", "cleanuppad"} -> {C(kind, "inst", <<>>, None)}
@@ -167,7 +179,11 @@ CmpShape == At2 /\ cs.kind \in {"icmp", "fcmp"} =>
               LET o == cs.ops[1] IN
               IF o.k = "vec" THEN Res.k = "vec" /\ Res.e = I1 /\ Res.n = o.n /\ Res.sc = o.sc ELSE Res = I1
 CmpXchgPair == At2 /\ cs.kind = "cmpxchg" => Res = TStruct(FALSE, <<cs.ops[3], I1>>) /\ cs.ops[1].e = cs.ops[3] /\ ~Res.pk
-CallRet == At2 /\ cs.kind \in CallKinds => Res = cs.ops[1].e.ret
+CallRet == At2 /\ cs.kind \in CallKinds =>
+             /\ Res = cs.ops[1].e.ret
+             /\ cs.x.sp \in {"short", "full"} /\ (cs.ops[1].e.va => cs.x.sp = "full")
+             \* the spelling is not an input of the rule: both spellings of a callee are cases
+             /\ ~cs.ops[1].e.va => \A sp \in {"short", "full"} : C(cs.kind, cs.form, cs.ops, [sp |-> sp]) \in CasesOf(cs.kind)
 CastTarget == At2 /\ cs.kind \in CastKinds => Res = cs.x.to
 AggPathFollowed == /\ At2 /\ cs.kind = "extractvalue" => AggPathOK(UR, cs.ops[1], cs.x.idx) /\ Res = AggPath(UR, cs.ops[1], cs.x.idx)
                    /\ At2 /\ cs.kind = "insertvalue" => Res = cs.ops[1] /\ cs.ops[2] = AggPath(UR, cs.ops[1], cs.x.idx)
